@@ -672,12 +672,24 @@ Proof.
       eapply clone_inputs_In; eassumption.
 Qed.
 
+Lemma Forall_firstn_skipn {A} (P : A -> Prop) n l : Forall P l -> Forall P (firstn n l) /\ Forall P (skipn n l).
+Proof. intros H. rewrite <- (firstn_skipn n l) in H. apply Forall_app in H. exact H. Qed.
+
+Lemma nodes_ok_filter cfgs (p : Z * node -> bool) nodes : nodes_ok cfgs nodes -> nodes_ok cfgs (filter p nodes).
+Proof.
+  unfold nodes_ok. rewrite !Forall_forall. intros H x Hx. apply filter_In in Hx. apply H. tauto.
+Qed.
+
 Lemma clone_inv h deep allow : DevInv h -> DevInv (fst (clone h deep allow)).
 Proof.
   intros [Hc Hn]. unfold clone.
-  destruct (clone_nodes h _ _ _ _ _ (s_nodes h)) as [[[nodes' names'] next']|] eqn:C; [|split; assumption].
-  simpl. split; [exact Hc|]. simpl. eapply clone_nodes_ok; [constructor | | exact Hn | exact C].
-  apply rank_pres_rev. apply fresh_from_rank.
+  pose proof (fresh_from_rank (s_nextv h) (s_gin h)) as Hr.
+  destruct (Forall_firstn_skipn _ (sc_nmain (s_sc h)) _ Hr) as [Hr1 Hr2].
+  destruct (clone_nodes h _ _ _ _ _ (filter _ (s_nodes h))) as [[[nodes1 names1] next1]|] eqn:C1; [|split; assumption].
+  destruct (clone_nodes h _ _ _ _ next1 _) as [[[nodes2 names2] next2]|] eqn:C2; [|split; assumption].
+  simpl. split; [exact Hc|]. simpl. unfold nodes_ok. apply Forall_app. split.
+  - eapply clone_nodes_ok; [constructor | | | exact C1]; [apply rank_pres_rev; exact Hr1 | apply nodes_ok_filter; exact Hn].
+  - eapply clone_nodes_ok; [constructor | | | exact C2]; [apply rank_pres_rev; exact Hr2 | apply nodes_ok_filter; exact Hn].
 Qed.
 
 (* ------------------------------------------------------------------ round trip *)
